@@ -682,6 +682,9 @@ def op_wreduce(case, o):
     elif name == "cumsum":
         r = np.cumsum(a, axis=-1) if o.get("how", "np") == "np" else a.cumsum(axis=-1)
         out = ["ragged", dt_of(r.dtype), [[L(int(x)) for x in np.asarray(row).tolist()] for row in r]]
+    elif name in ("sort", "unique"):
+        r = a.sort(axis=-1) if name == "sort" else np.unique(a, axis=-1)
+        out = ["ragged", dt_of(r.dtype), [[L(int(x)) for x in np.asarray(row).tolist()] for row in r]]
     else:
         raise ValueError(name)
     return out if same_snap(snap, snapshot(a)) else ["mutated", "operand changed"]
